@@ -107,6 +107,14 @@ pub const UNARY: &[&str] = &[
     "m := mod { if true { return X; } else { return X; }; q := 1; }", "r := { return X; q := 1; q }",
     "r := mod { }", "r := mod { mod { p := X } }", "r := { { X } }", "r := if true { return X; } else { 1 }",
     "r := [match X { => 1, }]", "r := (mod { p := X }).p", "for e in [X]~ { return e; }", "r := (X, X) == (X, X)",
+    // type filters over compound types (the filter is built from the printed type)
+    "r := X ? mut (int|string) $]", "r := X ? mut int $]", "r := X ? [int] $]", "r := X ? [int|string] $]", "r := X ? (int, string) $]",
+    "r := X ? int|string $]", "r := X ? struct{a: int} $]", "r := X ? (int|string, [int]) $]", "r := X ? [[int]|string] $]",
+    "r := [X]~ ? mut (int|string) $]", "r := [X]~ ? [int] $]", "r := [X]~ ? (int, int) $]", "r := [X]~ ? struct{a: int}|int $]",
+    // a run-time type test followed by a use at the tested type
+    "r := if v: [int] = X { v[-1] * 2 } else { 0 }", "r := if v: [string] = X { std.len(v[-1]) } else { 0 }",
+    "r := if v: (int, int) = X { v.0 * v.1 } else { 0 }", "r := if v: struct{a: int} = X { v.a * 2 } else { 0 }",
+    "r := if v: mut int = X { v += 1 } else { 0 }", "r := match X { v: [int] => v[0] - 1, v: [string] => std.len(v[0]), => 0, }",
 ];
 
 /// infix operators applied to two operands `X op Y`
@@ -124,6 +132,10 @@ pub const BINARY: &[&str] = &[
     "for e in X { Y }", "r := X[0] = Y", "r := X.a = Y", "r := *X + Y", "r := X = *Y", "r := X += *Y",
     "m := match Y { x: any => 0, }; r := x", "m := if x: any = Y { 0 } else { 1 }; r := x", "for x in [Y]~ { x }; r := x",
     "g := (x: any) -> any { return x; }; m := g(Y); r := x", "r := X $ Y (acc: any, c: any) -> int { return 1; }",
+    // a value built from two operands, tested against a type at run time and used at that type
+    "r := if v: [int] = X + Y { v[-1] * 2 } else { 0 }", "r := match X + Y { v: [string] => std.len(v[-1]), v: [int] => v[0] - 1, => 0, }",
+    "r := if v: [int] = [X, Y] { v[-1] * 2 } else { 0 }", "r := if v: (int, int) = (X, Y) { v.0 * v.1 } else { 0 }",
+    "r := (X + Y)~ ? int $*", "r := ([X] + [Y])~ ? [int] @ (a: [int]) -> int { return a[-1] * 2; } $]",
 ];
 
 pub fn operand(index: usize) -> &'static Operand {
